@@ -119,7 +119,7 @@ func TestVerif_C15_Park(t *testing.T) {
 	occ, skipped := 0, 0
 	cfgs := []string{"eee"}
 	if vr.Thorough() {
-		cfgs = []string{"eee", "eic", "sss"}
+		cfgs = []string{"eee", "eic", "eei"} // (no route-server clients: the soft-reset scenario assigns the global policy only)
 	}
 	for _, cfg := range cfgs {
 		for s := range c15pScripts {
